@@ -203,6 +203,8 @@ structure Sys where
   now : Nat := 0
   client : Client := .idle
   done : List (Nat × Res) := []     -- completed client operations with their completion time
+  behind : List Item := []          -- frames a successful read put back after the reader task had ended: they sit
+                                    -- *behind* the end-of-stream marker until a consumer meets the marker
 deriving Repr
 
 def Sys.finish (s : Sys) (r : Res) : Sys := { s with client := .idle, done := s.done ++ [(s.now, r)] }
@@ -221,7 +223,11 @@ def clientRun (cfg : Cfg) (s : Sys) : Sys :=
   | .reading sk c =>
     match scan (dataMatches cfg) sk s.queue with
     | .more sk' => { s with queue := [], client := .reading sk' c }
-    | .hit x rest sk' => { s with queue := rest ++ sk' }.finish (.data x.payload)
+    -- `read_diag_request` re-appends what it has skipped at the tail: behind the end-of-stream marker when the
+    -- reader task has ended
+    | .hit x rest sk' =>
+      { s with queue := if s.eof then rest else rest ++ sk',
+               behind := if s.eof then s.behind ++ sk' else s.behind }.finish (.data x.payload)
     -- `read_diag_request` drops what it has skipped when it ends by an exception
     | .err cw rest _ => { s with queue := rest, closed := true }.finish (.errWord cw)
 
@@ -261,6 +267,31 @@ def settle (cfg : Cfg) (yields : Wire → Bool) (s : Sys) : Sys :=
       settle cfg yields s1
 termination_by s.buf.length
 
+/-- the same loop had the read queue a capacity `cap > 0` (`asyncio.Queue(cap)`), up to the point where the reader
+    task suspends: `await put()` waits while `cap` items are queued, and nothing behind the frame it holds is read from
+    the stream any more - in particular no alive check - until a consumer takes an item.  `settle` above uses that the
+    queue of hsfz.py is unbounded (obligation `queues_unbounded` in `Proofs/C07.lean`, regenerated from the code on
+    every run): the reader task never waits for a consumer, and the re-queue of the frames an ack wait skipped
+    (`put_nowait`) never fails.  Kept to state the witness `bounded_queue_starves_alive_check`. -/
+def settleBounded (cap : Nat) (cfg : Cfg) (yields : Wire → Bool) (s : Sys) : Sys :=
+  if s.closed || s.eof then s else
+  match h : cutWire s.buf with
+  | none => clientRun cfg s
+  | some (w, rest) =>
+    have : rest.length < s.buf.length := cutWire_shrinks h
+    let full := (match dispatch w with | .enq _ => true | _ => false) && decide (0 < cap ∧ cap ≤ s.queue.length)
+    if full then clientRun cfg s
+    else
+      let s1 := deliver cfg { s with buf := rest } w
+      if yields w then
+        have : (clientRun cfg s1).buf.length < s.buf.length := by
+          rw [clientRun_buf, deliver_buf]; exact this
+        settleBounded cap cfg yields (clientRun cfg s1)
+      else
+        have : s1.buf.length < s.buf.length := by rw [deliver_buf]; exact this
+        settleBounded cap cfg yields s1
+termination_by s.buf.length
+
 /-- fire the consumer's timers that are due up to `target` (the caller's timer wins a tie: it was armed first).
     A cancelled ack wait puts the frames it has skipped back in front of the queue (`finally` in `_read_ack`);
     a cancelled `read_diag_request` drops them. -/
@@ -281,13 +312,14 @@ def fire (s : Sys) (target : Nat) : Sys :=
 
 /-- the end-of-stream marker: once the reader task has ended, a consumer that finds nothing it awaits in the queue
     is not left blocked but ends with `BrokenPipeError`.  The ack wait puts the frames it skipped back (`finally`),
-    `read_diag_request` drops them (it ends by an exception). -/
+    `read_diag_request` drops them (it ends by an exception).  `read_frame` puts the marker back at the very end, so
+    whatever sat behind it is in front of it from now on. -/
 def wake (s : Sys) : Sys :=
   if s.eof then
     match s.client with
     | .idle => s
-    | .ackWait _ sk _ _ => { s with queue := sk ++ s.queue }.finish .peerClosed
-    | .reading _ _ => s.finish .peerClosed
+    | .ackWait _ sk _ _ => { s with queue := sk ++ s.queue ++ s.behind, behind := [] }.finish .peerClosed
+    | .reading _ _ => { s with queue := s.queue ++ s.behind, behind := [] }.finish .peerClosed
   else s
 
 inductive Op
